@@ -274,11 +274,13 @@ var keyPool = []string{
 // plainKeyPool holds keys usable as tree-form path segments.
 var plainKeyPool = []string{"a", "b", "c", "d", "k1", "key", "é", "日本", "0", "12", "x y"}
 
-var intPool = []int{0, 1, -1, 2, 7, 42, -100, 1 << 31, math.MaxInt, math.MinInt, 1000000}
+var intPool = []int{0, 1, -1, 2, 7, 42, -100, 1 << 31, math.MaxInt, math.MinInt, 1000000,
+	255, 256, 65535, 65536, 1<<31 - 1, 1 << 32, 1 << 53, -(1 << 53), 1<<53 + 1, math.MaxInt - 1, math.MinInt + 1, 10, 100}
 
 var floatPool = []float64{0.5, -0.5, 1.5, 3.14, 1e-7, 1e300, -1e300, 2.0, math.Copysign(0, -1), 0.0, math.Inf(1), math.Inf(-1), 1e6, 123456.789,
 	// pairs of distinct floats that are nearly equal (tolerant comparisons confuse them)
-	0.3, 0.1 + 0.2, 1.0, math.Nextafter(1, 2), 1e21, math.Nextafter(1e21, math.Inf(1)), 5e-324, 1e-323}
+	0.3, 0.1 + 0.2, 1.0, math.Nextafter(1, 2), 1e21, math.Nextafter(1e21, math.Inf(1)), 5e-324, 1e-323,
+	1e20, 1e15, 1e16, 9007199254740993, math.MaxFloat64, -math.MaxFloat64, 1e-6, 999999.9999999999, 0.000001, 100, 4294967296}
 
 // drawer is the minimal decision source generators need (a *simrt.Sim inside a run, a Chooser outside).
 type drawer interface {
@@ -364,4 +366,10 @@ func genObject(d drawer, o treeOpts) at.Object {
 		ob.Set(keys[d.Draw("key", len(keys))], genValue(d, o))
 	}
 	return ob
+}
+
+func init() {
+	// a few long strings: thresholds on string length (small-string optimisations, buffers) lie far above the pool's usual sizes
+	stringPool = append(stringPool, strings.Repeat("long-", 60), strings.Repeat("é", 40), strings.Repeat("x", 5000))
+	keyPool = append(keyPool, strings.Repeat("K", 300))
 }
